@@ -13,8 +13,8 @@ RULE = (
     "histories over the ten operations add/delete/expunge/flush/commit/rollback/close/merge/make_transient/"
     "make_transient_to_detached on 1-3 generated objects of a one-column mapped class (primary keys drawn from "
     "{1,1,2} so that identities collide, 0-2 rows pre-inserted, expire_on_commit on/off) driven against a real "
-    "Session on in-memory SQLite: all 1000 histories of length 3 on one object, all 2-object histories of "
-    "length 2, the defect histories, and random histories of length <= 10 (three operation weightings); "
+    "Session on in-memory SQLite: all 1000 histories of length 3 on one object, 2-object histories of "
+    "length 2 (every second quick, all 400 thorough), the defect histories, and random histories of length <= 10 (three operation weightings); "
     "thorough: all 10^4 one-object histories of length 4 and 20000 random ones.  Before every operation the "
     "harness records what the model takes as environment (rows visible on the session's connection, "
     "identity_map.check_modified(), per object expired / pk-expired / pk-loaded); after it: the five "
@@ -205,8 +205,10 @@ def gen_cases(rng, tier):
     for k, seq in enumerate(itertools.product(range(10), repeat=n1)):
         cases.append({"in": [k & 1, [1], [1] if k % 3 == 0 else [], [[c, 0] for c in seq]], "kind": "one-object-%d" % n1})
     for k, (a, b, i, j) in enumerate(itertools.product(range(10), range(10), range(2), range(2))):
+        if tier != "thorough" and (k // 2) % 2:
+            continue
         cases.append({"in": [1 - (k & 1), [1, 1], [], [[0, 0], [3, 0], [a, i], [b, j], [5, 0]]], "kind": "two-objects"})
-    nrand = 20000 if tier == "thorough" else 700
+    nrand = 20000 if tier == "thorough" else 500
     weights = [[3, 2, 2, 3, 3, 2, 1, 1, 2, 1], [3, 3, 1, 4, 2, 3, 0, 3, 3, 3], [2] * 10]
     for _ in range(nrand):
         n = rng.randint(1, 3)
